@@ -200,6 +200,7 @@ func c03(r *hx.Run) {
 		tag    string
 		e      *histEnum
 		client *fx.Client // nil: the single-version client
+		delta  uint64     // 0: the delta of the single-version client
 	}
 	var phases []phase
 	// A: creates are part of the alphabet (no-create, late-create, several creates); depth 3
@@ -244,7 +245,19 @@ func c03(r *hx.Run) {
 		if r.Tier == "thorough" {
 			depthV = 3
 		}
-		phases = append(phases, phase{"V", &histEnum{pool: pool, alpha: legit, coords: after, depth: depthV, pubModes: "p", fixed: fixedC}, twoVer})
+		phases = append(phases, phase{"V", &histEnum{pool: pool, alpha: legit, coords: after, depth: depthV, pubModes: "p", fixed: fixedC}, twoVer, 0})
+	}
+	// W: explicit windows [1, 100] that are longer than the protocol's delta (1 here): a signed anchorUntil is taken as it is,
+	// the delta only supplies a missing one - operations anchored at times 2 and 3 are inside their windows
+	{
+		pw := v.P
+		pw.MaxOperationTimeDelta = 1
+		depthW := 2
+		if r.Tier == "thorough" {
+			depthW = 3
+		}
+		phases = append(phases, phase{"W", &histEnum{pool: pool, alpha: []string{"U01i", "R01i", "D0i", "U01", "U12", "V01", "R01", "D0", "U01~w"}, coords: after, depth: depthW, pubModes: "p", fixed: fixedC},
+			fx.NewClient(fx.NewVersion(pw, nil)), 1})
 	}
 	if r.Tier == "thorough" {
 		// E: everything incl. forged at depth 3 after the create
@@ -265,7 +278,11 @@ func c03(r *hx.Run) {
 			if ph.client != nil {
 				cl = ph.client
 			}
-			compareWithModel(r, ph.tag, cl, ph.e.pool, placed, delta)
+			d := delta
+			if ph.delta != 0 {
+				d = ph.delta
+			}
+			compareWithModel(r, ph.tag, cl, ph.e.pool, placed, d)
 		})
 	}
 	r.Extra["phases_planned_histories"] = planned
